@@ -44,6 +44,7 @@ def viol(clause, detail, **sig):
 class C15(Prop):
     pid = "C15"
     family = "name"
+    exhaustive_space = True     # the quick tier enumerates its whole finite space
     rule = ("EXHAUSTIVE over the alphabet {/, a, b}: namespaces of length <= 4 x keys of length <= 5 (well-formed and "
             "ill-formed) through absolute_name and relative_name, follow-up calls on the absolute names, Client namespace "
             "normalisation and the namespace closure; thorough adds random longer strings over a wider alphabet; "
